@@ -16,7 +16,7 @@ import StunVerif.Props.SrcFnIntegrity
 #print axioms StunVerif.RefHashes.hmac_length
 #print axioms StunVerif.RefHashes.refHashes_ok
 #print axioms StunVerif.RefHashes.rfc_vectors
-#print axioms StunVerif.SrcFnIntegrity.FaultEq.rfl'
+#print axioms StunVerif.SrcFnIntegrity.FaultEq.refl
 #print axioms StunVerif.SrcFnIntegrity.FaultEq.of_faults
 #print axioms StunVerif.SrcFnIntegrity.FaultEq.eq_of_not_fault
 #print axioms StunVerif.SrcFnIntegrity.match_ite
